@@ -1,5 +1,6 @@
 import PharmpyProofs.C16.DBLemmas
 import PharmpyProofs.C16.TextLemmas
+import PharmpyProofs.C16.ResultLogLemmas
 /-
   C16 — Model database and run context are atomic and faithful, even across
   crashes.  Property theorems.
@@ -960,6 +961,62 @@ theorem exception_finally_witness :
     (dbRetrieve "K1" (excFaultWith true fs (.dbStoreEntry m) 14 none)).2
       = .ok { code := "M1", dataset := some "H1", di := some "D1", res := none } ∧
     (dbRetrieve "K1" (excFault fs (.dbStoreEntry m) 14 none)).2 = .error .pending := by
+  decide
+
+end Pharmpy.C16
+
+namespace Pharmpy.C16
+
+/-! ### The log of a stored model entry (through results.json) -/
+
+/-- **The log of a stored entry comes back in order and verbatim**, for every
+    log of every length and every message text: `Log.from_dict` applied to what
+    `read_results` rebuilds from the JSON object `ModelfitResults.to_json`
+    writes for `Log.to_dict` (integer positions turned into string keys) is the
+    log itself. -/
+theorem result_log_roundtrip (l : List LogEntry) : decodeLog (encodeLog l) = some l := by
+  have hnodup : ((encodeLog l).map (·.1)).Nodup := by
+    simp only [encodeLog, List.map_append, List.map_map, List.map_cons, List.map_nil]
+    rw [List.nodup_append]
+    refine ⟨keys_logToDict_nodup 0 l, by simp, ?_⟩
+    intro a ha b hb
+    simp only [List.mem_map, Function.comp] at ha
+    obtain ⟨p, _, rfl⟩ := ha
+    simp only [List.mem_cons, List.not_mem_nil, or_false] at hb
+    subst hb
+    exact toString_nat_ne_class p.1
+  have hd : dictOfPairs (encodeLog l) = encodeLog l := by
+    have := dictOfPairs_nodup (encodeLog l) [] (by simpa using hnodup)
+    simpa [dictOfPairs] using this
+  unfold decodeLog
+  simp only [hd]
+  have hany : (encodeLog l).any (fun p => p.1 = "__class__" ∧ p.2 = JVal.str "Log") = true := by
+    simp [encodeLog]
+  simp only [hany, if_true]
+  have hdel : dictDel (encodeLog l) "__class__"
+      = (logToDict 0 l).map (fun p => (toString p.1, JVal.entry p.2)) := by
+    simp only [dictDel, encodeLog, List.filter_append]
+    have h1 : ((logToDict 0 l).map (fun p => (toString p.1, JVal.entry p.2))).filter (fun p => p.1 ≠ "__class__")
+        = (logToDict 0 l).map (fun p => (toString p.1, JVal.entry p.2)) := by
+      apply List.filter_eq_self.mpr
+      intro p hp
+      rw [List.mem_map] at hp
+      obtain ⟨q, _, rfl⟩ := hp
+      simpa using toString_nat_ne_class q.1
+    rw [h1]; simp
+  rw [hdel, logFromDict_entries, logToDict_values]
+
+/-- `result_log_order`: the k-th retrieved message is the k-th stored one. -/
+theorem result_log_order (l : List LogEntry) (k : Nat) :
+    (decodeLog (encodeLog l)).map (fun r => r[k]?) = some l[k]? := by
+  rw [result_log_roundtrip]; rfl
+
+/-- The round trip depends on reading the dict in insertion order: ordering the
+    (string!) keys with `sorted` permutes any log of more than ten messages. -/
+theorem result_log_sorted_keys_witness :
+    let l : List LogEntry := (List.range 12).map fun i => { category := "WARNING", message := toString i, time := "t" }
+    (logFromDictSorted (dictDel (dictOfPairs (encodeLog l)) "__class__")).map (·.map (·.message))
+      = some ["0", "1", "10", "11", "2", "3", "4", "5", "6", "7", "8", "9"] := by
   decide
 
 end Pharmpy.C16
